@@ -24,7 +24,11 @@ func init() {
 }
 
 func execTT(a []Tok) string {
-	x1, x2 := a[1].Fs(), a[2].Fs()
+	x1 := a[1].Fs()
+	x2 := x1 // the same sample named twice: one slice for both parameters
+	if !sameTok(a[1], a[2]) {
+		x2 = a[2].Fs()
+	}
 	mu0 := a[3].F()
 	alt := stats.LocationHypothesis(a[4].Int())
 	var r *stats.TTestResult
@@ -191,6 +195,25 @@ func genC04(w *bufio.Writer, tier string, rng *rand.Rand) {
 		fmt.Fprintf(w, "tt welch %s %s 0p-1074 %d\n", fmtFs(x1), fmtFs(x2), alt)
 		if rng.Intn(2) == 0 {
 			fmt.Fprintf(w, "tt pooled %s %s 0p-1074 %d\n", fmtFs(x1), fmtFs(x2), alt)
+		}
+	}
+	// paired data that move together: the second sample plus a large offset plus small dyadic noise
+	// (each sample is ordinary; only their differences are nearly constant), and a sample against itself
+	for k := 0; k < pick(tier, 150, 3000); k++ {
+		nn := 3 + rng.Intn(20)
+		x2 := ttValues(rng, nn, float64(rng.Intn(3))*10, math.Ldexp(1, rng.Intn(5)-2))
+		off := []float64{1000, 100, 0.5, 1e5}[rng.Intn(4)]
+		noise := math.Ldexp(1, -[]int{4, 10, 20, 26}[rng.Intn(4)])
+		x1 := make([]float64, nn)
+		for i := range x1 {
+			x1[i] = x2[i] + off + float64(rng.Intn(7)-3)*noise
+		}
+		mu0 := off + float64(rng.Intn(5)-2)*noise/4
+		alt := rng.Intn(3) - 1
+		fmt.Fprintf(w, "tt paired %s %s %s %d\n", fmtFs(x1), fmtFs(x2), fmtF(mu0), alt)
+		if rng.Intn(10) == 0 {
+			fmt.Fprintf(w, "tt welch %s %s 0p-1074 %d\n", fmtFs(x2), fmtFs(x2), alt)
+			fmt.Fprintf(w, "tt paired %s %s 0p-1074 %d\n", fmtFs(x2), fmtFs(x2), alt)
 		}
 	}
 	// corners of MeanCI: the smallest samples with confidence levels next to 0 and 1 (quantiles of
